@@ -146,6 +146,45 @@ def canon_fields(o):
     return o
 
 
+def impl_e2e(a):
+    msg = oracle_docs(a)
+    return ok("faithful") if msg is None else {"err": msg[:160]}
+
+
+def spec_e2e(a):
+    """the property itself, for content models outside the listed findings: every valid document
+    is accepted by the strict parser and comes back with the same content"""
+    p = a["particle"]
+    if len(set(G.particle_names(p))) != len(G.particle_names(p)):
+        return {"unspecified": "an element name at several sites (finding C02-duplicate-name-sites)"}
+    return ok("faithful")
+
+
+def gen_choice_clashes(rng, tier):
+    """repeating choices of single elements whose python types overlap (the case compound fields
+    must disambiguate): plain/derived types and unions sharing a member type"""
+    clash = ["string", "token", "int", "long", "date", "u_int_string", "u_date_int", "boolean", "decimal"]
+    for _ in range(n_cases(tier, 20, 1500)):
+        k = rng.randint(2, 4)
+        names = rng.sample(["a", "b", "c", "d", "e"], k)
+        p = {"choice": [rng.choice([0, 1]), MAXSIZE, [{"elem": [n, 1, 1]} for n in names]]}
+        if rng.random() < 0.3:
+            p = {"seq": [1, 1, [{"elem": ["h", 1, 1]}, p]]}
+        types = {n: rng.choice(clash) for n in G.particle_names(p)}
+        yield {"particle": p, "words": [G.sample_word(rng, p, budget=4) for _ in range(4)], "types": types,
+               "configs": [{"compound_fields": True}]}
+
+
+def gen_e2e(rng, tier):
+    yield from gen_choice_clashes(rng, tier)
+    n = 0
+    for a in gen_docs(rng, tier):
+        n += 1
+        if n > n_cases(tier, 25, 1500):
+            break
+        yield a
+
+
 CORRS = [
     Corr("gen.xsd_sites", gen_sites, impl_sites, canon=canon_sites, describe="SchemaParser+SchemaMapper element sites and paths vs model"),
     Corr("gen.calc_paths", stage_gen("calc"), stage_impl("calc"), describe="CalculateAttributePaths.process vs model"),
@@ -154,6 +193,8 @@ CORRS = [
     Corr("gen.occurs", gen_occurs, stage_impl("all"), describe="the three handlers in container order vs model"),
     Corr("gen.xsd_occurs", gen_fields, impl_fields, canon=canon_fields,
          describe="whole real pipeline + stand-in renderer: list-ness / requiredness of generated fields vs model"),
+    Corr("c02.e2e", gen_e2e, impl_e2e, spec=spec_e2e,
+         describe="spec-level: schema (typed elements, unions) -> real pipeline under default / compound-field / output-only options -> strict parse of valid documents -> re-serialise; expected: faithful"),
 ]
 
 
@@ -198,6 +239,21 @@ def multi_site(p, n):
     return G.particle_names(p).count(n) > 1
 
 
+def order_promised(p, top=True):
+    """every repeating group is a choice of single elements, or the top-level sequence of single elements"""
+    if "elem" in p:
+        return True
+    if "choice" in p:
+        mn, mx, kids = p["choice"]
+        return all("elem" in k and k["elem"][1:] == [1, 1] for k in kids)
+    mn, mx, kids = p["seq"]
+    if mx > 1:
+        # "single elements": each member occurs exactly once per iteration (with optional or
+        # repeating members the rolling interleave of sequence fields cannot tell iterations apart)
+        return top and all("elem" in k and k["elem"][1:] == [1, 1] for k in kids)
+    return all(order_promised(k, False) for k in kids)
+
+
 def oracle_docs(a):
     from lxml import etree
     from xsdata.formats.dataclass.context import XmlContext
@@ -205,43 +261,80 @@ def oracle_docs(a):
     from xsdata.formats.dataclass.parsers.config import ParserConfig
     from xsdata.formats.dataclass.serializers import XmlSerializer
 
-    p, words = a["particle"], a["words"]
-    xsd = G.particle_xsd(p)
+    p, words, types = a["particle"], a["words"], a.get("types")
+    xsd = G.particle_xsd(p, types=types)
     try:
         schema = etree.XMLSchema(etree.fromstring(xsd.encode()))
     except etree.XMLSchemaParseError:
         return None  # not a valid schema (e.g. non-deterministic content model): outside the property
-    g = CG.run_pipeline({"s.xsd": xsd})
-    try:
-        if g.error is not None:
-            return f"generation failed: {type(g.error).__name__}: {g.error}"
-        R = g.classes()["R"]
-        ctx = XmlContext()
-        parser = XmlParser(context=ctx, config=ParserConfig(fail_on_unknown_properties=True, fail_on_unknown_attributes=True, fail_on_converter_warnings=True))
-        for w in words:
-            doc = G.word_doc(w)
-            if not schema.validate(etree.fromstring(doc.encode())):
-                continue
-            try:
-                obj = parser.from_string(doc, R)
-            except Exception as e:  # noqa: BLE001
-                return f"schema-valid document {doc} rejected: {type(e).__name__}: {e}"
-            out = XmlSerializer(context=ctx).render(obj)
-            back = etree.fromstring(out.encode())
-            got = sorted((etree.QName(c).localname, c.text) for c in back)
-            exp = sorted((n, f"v{i}") for i, n in enumerate(w))
-            if got != exp:
-                return f"document {doc} re-serialised with other content: {out}"
-    finally:
-        g.close()
+    passes = [({}, False)]
+    for extra in a.get("configs", []):
+        passes.append((extra, bool(extra.get("compound_fields")) and order_promised(p)))
+    reference = None
+    for opts, ordered in passes:
+        g = CG.run_pipeline({"s.xsd": xsd}, **opts)
+        try:
+            if g.error is not None:
+                return f"generation failed ({opts}): {type(g.error).__name__}: {g.error}"
+            R = g.classes()["R"]
+            ctx = XmlContext()
+            parser = XmlParser(context=ctx, config=ParserConfig(fail_on_unknown_properties=True, fail_on_unknown_attributes=True, fail_on_converter_warnings=True))
+            outs = []
+            for w in words:
+                doc = G.word_doc(w, types=types)
+                if not schema.validate(etree.fromstring(doc.encode())):
+                    continue
+                try:
+                    obj = parser.from_string(doc, R)
+                except Exception as e:  # noqa: BLE001
+                    return f"schema-valid document {doc} rejected ({opts}): {type(e).__name__}: {e}"
+                out = XmlSerializer(context=ctx).render(obj)
+                back = etree.fromstring(out.encode())
+                got = [(etree.QName(c).localname, c.text) for c in back]
+                exp = list(zip(w, G.word_values(w, types)))
+                if sorted(got) != sorted(exp):
+                    return f"document {doc} re-serialised with other content ({opts}): {out}"
+                if ordered:
+                    if got != exp:
+                        return f"document {doc} re-serialised in another element order ({opts}): {out}"
+                    if not schema.validate(back):
+                        return f"document {doc} re-serialised as {out}, which is not schema-valid ({opts})"
+                outs.append(sorted(got))
+            if reference is None:
+                reference = outs
+            elif outs != reference and not opts.get("compound_fields"):
+                return f"output-only options {opts} change the documents produced"
+        finally:
+            g.close()
     return None
 
 
+OUTPUT_ONLY = [
+    {"structure_style": "single-package"},
+    {"unnest_classes": True},
+    {"frozen": True},
+    {"slots": True},
+    {"docstring_style": "Google"},
+    {"relative_imports": True},
+    {"generic_collections": True},
+    {"kw_only": False},
+]
+
+
 def gen_docs(rng, tier):
-    for p in particles(rng, n_cases(tier, 60, 3000), dup_share=0.4):
-        if not valid_schema(p):
+    for p in particles(rng, n_cases(tier, 60, 3000), dup_share=0.3):
+        typed = rng.random() < 0.6
+        types = G.assign_types(rng, p) if typed else None
+        try:
+            from lxml import etree
+
+            etree.XMLSchema(etree.fromstring(G.particle_xsd(p, types=types).encode()))
+        except Exception:  # noqa: BLE001
             continue
-        yield {"particle": p, "words": [G.sample_word(rng, p) for _ in range(6)]}
+        configs = [{"compound_fields": True}] if rng.random() < 0.6 else []
+        if rng.random() < 0.4:
+            configs.append(rng.choice(OUTPUT_ONLY))
+        yield {"particle": p, "words": [G.sample_word(rng, p) for _ in range(5)], "types": types, "configs": configs}
 
 
 def covered_docs(a, msg):
